@@ -33,6 +33,13 @@ struct EncParams {
   bool echo = false;
 };
 
+// ambient caller choices that must not change any result: the progress printer (the CLI default) and the size
+// argument, which only feeds the progress display (0 = "unknown" is what a caller without the size passes)
+inline bool &force_echo() { static bool e = false; return e; }
+inline int &size_hint_mode() { static int m = 0; return m; } // 0 real size, 1 zero, 2 one
+inline size_t size_hint(size_t real) { int m = size_hint_mode(); return m == 1 ? 0 : m == 2 ? 1 : real; }
+inline void set_ambient(long long idx) { force_echo() = idx % 4 == 1; size_hint_mode() = idx % 6 == 1 ? 1 : idx % 6 == 4 ? 2 : 0; }
+
 inline Result encrypt(const bytes &P, const EncParams &ep, int outbuf = -1 /* -1 default, 0 unbuffered, n>0 size */,
                       bool record_payload = false, size_t fail_read_call = 0, size_t fail_write_call = 0) {
   Result r;
@@ -48,9 +55,9 @@ inline Result encrypt(const bytes &P, const EncParams &ep, int outbuf = -1 /* -1
   bytes seed = ep.seed;
   seed.push_back(0);
   {
-    Settings st((char)ep.cmode, (char)ep.hmode, !ep.echo);
+    Settings st((char)ep.cmode, (char)ep.hmode, !(ep.echo || force_echo()));
     runcrypt runner(fi, fo, key, st, (u8_t)ep.T);
-    r.ret = runner.execute_encrypt(P.size(), seed.data());
+    r.ret = runner.execute_encrypt(size_hint(P.size()), seed.data());
   }
   r.out = out.data;
   r.writes = out.writes;
@@ -78,9 +85,9 @@ inline Result decrypt_or_verify(bool dec, const bytes &F, const uint8_t key_[16]
   uint8_t key[16];
   memcpy(key, key_, 16);
   {
-    Settings st((char)-1, (char)-1, !echo);
+    Settings st((char)-1, (char)-1, !(echo || force_echo()));
     runcrypt runner(fi, fo, key, st, (u8_t)T);
-    r.ret = dec ? runner.execute_decrypt(F.size()) : runner.execute_verify(F.size());
+    r.ret = dec ? runner.execute_decrypt(size_hint(F.size())) : runner.execute_verify(size_hint(F.size()));
   }
   // flush whatever stdio still holds so that "bytes written" is what a real file would receive
   if (!out.closed) fflush(fo);
